@@ -3,7 +3,7 @@
 cd "$(dirname "$0")/.."
 seed=$1; shift
 git -C /repo diff --quiet || { echo "/repo has uncommitted changes"; exit 2; }
-git -C /repo apply /verif/seeded/$seed/patch.diff || exit 2
+git -C /repo apply /verif/${SEEDDIR:-seeded}/$seed/patch.diff || exit 2
 for id in "$@"; do
   out=$(bin/check $id --tier quick 2>&1); rc=$?
   echo "seed=$seed check=$id rc=$rc violations=$(echo "$out" | grep -c '^VIOLATION')"
